@@ -27,6 +27,7 @@ import Driver.PopWait
 import Driver.PoolConc
 import Driver.RWLock
 import Driver.KTableConc
+import Driver.Stop
 
 def main (args : List String) : IO UInt32 := do
   match args with
@@ -62,4 +63,5 @@ def main (args : List String) : IO UInt32 := do
   | ["future"] => Driver.Future.main; return 0
   | ["rwlock"] => Driver.RWLock.main; return 0
   | ["ktableconc"] => Driver.KTableConc.main; return 0
+  | ["stop"] => Driver.Stop.main; return 0
   | _ => IO.eprintln "usage: driver <model>  (htable)"; return 2
